@@ -127,7 +127,7 @@ func runC16(c C16Case, gen func(w *World) (Op, bool)) (v *Violation, w *World, o
 	if err != nil {
 		return nil, nil, nil, err
 	}
-	obs := Observers{Reads: true, Hash: true, Versions: true, Fresh: true, Fast: true}
+	obs := Observers{Reads: true, Hash: true, Versions: true, Fresh: true, Fast: true, Hybrid: true}
 	w = &World{Prop: "C16", Backend: "mem", Cfg: c.Cfg, Obs: obs, Vers: map[int64]*VerState{}, WKV: map[string][]byte{},
 		WTouched: map[string]bool{}, Labels: map[string]bool{}, Excl: map[string]int{}, Cnt: map[string]int{}}
 	// reference model of the legacy history
